@@ -260,12 +260,30 @@ def oracle(inp):
       if abs(got - exact) > band:
         return fail("Monte-Carlo parallel EI (no pending points) differs from analytic EI beyond the Monte-Carlo error", got, exact)
     else:
-      exact = float(qei._compute_expected_improvement_qd_analytic(x1))
+      exact = None if inp["mc"].get("coincident") else float(qei._compute_expected_improvement_qd_analytic(x1))   # singular joint covariance: no closed form
       pts = numpy.vstack([x1, pend])
       cov = gp.compute_covariance_of_points(pts)
       band = 6 * math.sqrt(max(float(numpy.diag(cov).max()), 1e-300) / N) * 2 + 1e-6
-      if abs(got - exact) > band:
+      if not inp["mc"].get("coincident") and abs(got - exact) > band:
         return fail("Monte-Carlo parallel EI with pending points differs from the exact value beyond the Monte-Carlo error", got, exact)
+      # independent estimate (also where the joint covariance is singular: a candidate equal to a pending point, duplicated pending
+      # points - the library then samples through its SVD fallback factor): E max(0, best - min_j Y_j), Y ~ N(mean, cov) from the
+      # reference posterior, sampled through a symmetric eigen-factor with a generator of its own
+      ref = dict(gi, xs=pts.tolist())
+      rmean, _, rcov, rcond = gpgen.reference_posterior(ref)
+      w_, U = numpy.linalg.eigh((rcov + rcov.T) / 2)
+      F = U * numpy.sqrt(numpy.clip(w_, 0.0, None))[None, :]
+      g2 = numpy.random.default_rng(inp["mc"]["seed"] + 1)
+      N2 = 200000
+      Y = rmean[None, :] + g2.standard_normal((N2, len(rmean))) @ F.T
+      imp = numpy.fmax(0.0, float(qei.best_value) - Y.min(axis=1))
+      est, se2 = float(imp.mean()), float(imp.std() / math.sqrt(N2))
+      se1 = float(imp.std() / math.sqrt(N))
+      # rounding of the library's posterior: forward error of the Cholesky solves, eps * cond(K) relative to the magnitudes (reading of C02)
+      scale = max(1.0, abs(est), float(numpy.abs(rmean).max()), abs(float(qei.best_value)))
+      if rcond <= 1e10 and abs(got - est) > 6 * (se1 + se2) + (1e-9 + 1e-14 * rcond) * scale:
+        return fail("Monte-Carlo parallel EI with pending points differs from an independent estimate of E max(0, best - min Y) beyond the Monte-Carlo error",
+                    got, dict(estimate=est, se_library=se1, se_reference=se2))
   return None
 
 
@@ -274,10 +292,16 @@ def gen_input(rng, quick):
   gi["tikhonov"] = None
   inp = dict(gp=gi, on_sampled=rng.random() < 0.4, thresholds=[rng.uniform(-1, 1), rng.uniform(-1, 1)],
              task_cost=rng.choice([None, 0.1, 0.5, 1.0]))
-  if rng.random() < (0.05 if quick else 0.1):
+  if rng.random() < (0.1 if quick else 0.12):
     dim = len(gi["points"][0])
-    k = rng.choice([0, 0, 1, 2])
+    k = rng.choice([0, 1, 1, 2])
     inp["mc"] = dict(seed=rng.randrange(10 ** 6), draws=20000, pending=[[rng.uniform(0, 1) for _ in range(dim)] for _ in range(k)])
+    co = rng.choice([None, None, "x", "dup"]) if k else None
+    if co == "x":       # the candidate coincides with a pending point
+      inp["mc"]["pending"][rng.randrange(k)] = list(gi["xs"][0])
+    elif co == "dup":   # the same pending point listed twice
+      inp["mc"]["pending"].append(list(inp["mc"]["pending"][0]))
+    inp["mc"]["coincident"] = co
   return inp
 
 
